@@ -28,7 +28,7 @@ Section VPO.
 
   (* PreOrderIterItem: (node, n_children_yielded, is_complete); parent and index are not used
      by any of the printers and are left out. *)
-  Definition vpo_item : Type := (T * nat * bool)%type.
+  Local Notation vpo_item := (T * nat * bool)%type.
 
   (* PreOrderIterItem::initial:  is_complete: node.n_children() == 0, n_children_yielded: 0 *)
   Definition vpo_initial (node : T) : vpo_item :=
@@ -68,6 +68,7 @@ Section VPO.
         end
     end.
 End VPO.
+Notation vpo_item T := (T * nat * bool)%type (only parsing).
 
 (** * Types *)
 Local Open Scope N_scope.
@@ -137,7 +138,7 @@ Fixpoint ty_nev (t : ty) : nat :=
 (* Display for ResolvedType:
      for data in self.verbose_pre_order_iter() { data.node.0.display(f, data.n_children_yielded)?; } *)
 Definition ty_print_machine (t : ty) : list N :=
-  flat_map (fun it : vpo_item => let '(node, n, _) := it in ty_display node n)
+  flat_map (fun it : vpo_item ty => let '(node, n, _) := it in ty_display node n)
            (vpo_run ty_children (ty_nev t) [vpo_initial ty_children t]).
 
 (** * The obvious printer *)
